@@ -201,6 +201,17 @@ theorem release_once (dflt : T) (a : Arena T) (h : AInv a) (id : Nat) (x : T) (h
   obtain ⟨a1, he, hinv, hnone, _⟩ := deallocate_live dflt a h id x hg
   exact ⟨a1, he, deallocate_dead dflt a1 hinv id hnone, deallocateNoReturn_dead a1 hinv id hnone⟩
 
+/-- **A release interrupted by a panic of `T::default()`.**  `deallocate` / `deallocate_with_default` clear the mask
+    bit and push the index *before* `mem::take` builds the default item, so a panic there (caught by the caller)
+    leaves exactly what `deallocate_no_return` leaves: a well-formed arena in which the handle is released once,
+    every other handle answers as before and the counters moved by one — never a slot that is both live and on the
+    free list.  (The order of those three steps is what the `faultd` lines of the correspondence run check on the
+    real arena with an item type whose `default()` panics on demand.) -/
+theorem release_interrupted_by_default_panic (a : Arena T) (h : AInv a) (id : Nat) (x : T) (hg : a.get id = some x) :
+    ∃ a', a.deallocateNoReturn id = (true, a') ∧ AInv a' ∧ a'.get id = none ∧
+      (∀ j, j ≠ id → a'.get j = a.get j) ∧ a'.len + 1 = a.len ∧ a'.freeCount = a.freeCount + 1 :=
+  deallocateNoReturn_live a h id x hg
+
 /-- `len` is the number of handles for which `get` answers; `free_count` the rest of the slots -/
 theorem counters_exact (a : Arena T) (h : AInv a) :
     a.len = ((List.range a.storage.length).filter (fun i => (a.get i).isSome)).length ∧
